@@ -69,3 +69,10 @@ pub assume_specification[ SystemTime::checked_sub ](t: &SystemTime, d: Duration)
     ensures
         st_in_range(st_nanos(*t) - dur_nanos(d)) ==> r is Some && st_nanos(r->Some_0) == st_nanos(*t) - dur_nanos(d),
         !st_in_range(st_nanos(*t) - dur_nanos(d)) ==> r is None;
+
+// more documented std integer behaviour (used by plausible rewrites of the tick arithmetic)
+pub assume_specification[ u64::saturating_add_signed ](x: u64, d: i64) -> (r: u64)
+    ensures
+        (x + d) > 0xffff_ffff_ffff_ffff ==> r == 0xffff_ffff_ffff_ffffu64,
+        (x + d) < 0 ==> r == 0,
+        0 <= (x + d) <= 0xffff_ffff_ffff_ffff ==> r as int == (x + d);
